@@ -125,6 +125,7 @@ def build_real(prog, log):
                         self.nid = nid
 
                     def write(self, text):
+                        FUNCS["txtwrite"](text)          # (a write can fail like any user function: fault injection point)
                         log.append((self.nid, text, SKIPMD))
 
                     def close(self):
